@@ -181,8 +181,39 @@ func Family(r *rand.Rand, name string, n int, h Hint) []byte {
 	return b
 }
 
+// translate maps the bytes of b through a random substitution in a quarter of
+// the calls, so that every family also occurs over byte values like 0x00
+// (which equals the empty hash entry), 0xff and 0x80.
+func translate(r *rand.Rand, b []byte) []byte {
+	if r.Intn(4) != 0 || len(b) == 0 {
+		return b
+	}
+	special := []byte{0x00, 0xff, 0x01, 0x80, 0x7f, 0xfe, 'a', 0x00}
+	var m [256]byte
+	for i := range m {
+		m[i] = byte(i)
+	}
+	// the most frequent small-alphabet letters get special values
+	perm := r.Perm(len(special))
+	for i, c := range []byte{'a', 'b', 'c', 'd'} {
+		m[c] = special[perm[i]]
+	}
+	if r.Intn(2) == 0 {
+		m[b[0]] = 0x00
+	}
+	for i, c := range b {
+		b[i] = m[c]
+	}
+	return b
+}
+
 // Bytes picks a family by weight and generates n bytes.
 func Bytes(r *rand.Rand, n int, h Hint) (family string, b []byte) {
+	family, b = bytesPlain(r, n, h)
+	return family, translate(r, b)
+}
+
+func bytesPlain(r *rand.Rand, n int, h Hint) (family string, b []byte) {
 	w := []struct {
 		f string
 		w int
